@@ -27,6 +27,7 @@ fn run(line: &str) -> String {
     let mut a = Acceptor::new(ServerConfig);
     a.set_handshake_timeout(Duration::from_millis(timeout));
     let w0 = waker(15); let mut cx0 = Context::from_waker(&w0);
+    let a = a.clone();        // as a server does per worker: the service comes from a clone of the configured acceptor
     let mut sf = Box::pin(ServiceFactory::<Io>::new_service(&a, ()));
     let svc = match sf.as_mut().poll(&mut cx0) { Poll::Ready(Ok(s)) => s, _ => return "INIT-FAILED".into() };
     let mut futs: Vec<Option<Pin<Box<AcceptFut<Io>>>>> = Vec::new();
@@ -69,6 +70,7 @@ fn run_openssl(line: &str) -> String {
     let mut a = ossl::Acceptor::new(openssl::ssl::SslAcceptor::model());
     a.set_handshake_timeout(Duration::from_millis(timeout));
     let w0 = waker(15); let mut cx0 = Context::from_waker(&w0);
+    let a = a.clone();        // as a server does per worker: the service comes from a clone of the configured acceptor
     let mut sf = Box::pin(ServiceFactory::<Io>::new_service(&a, ()));
     let svc = match sf.as_mut().poll(&mut cx0) { Poll::Ready(Ok(s)) => s, _ => return "INIT-FAILED".into() };
     let mut futs: Vec<Option<Pin<Box<ossl::AcceptFut<Io>>>>> = Vec::new();
